@@ -11,7 +11,8 @@ Record gvar := mkGvar { g_name : string; g_kind : gkind; g_type : string }.
 Inductive akind :=
 | ARead        (* load of the variable / field *)
 | AWrite       (* store to the variable / field *)
-| AMapRead     (* lookup / range / len / element read through the map or slice held in the variable *)
+| AMapRead     (* lookup / len / element read through the map or slice held in the variable *)
+| AMapRange    (* iteration (`range`) over the map held in the variable: the order is randomised per run *)
 | AMapWrite    (* map update / element or field store through it *)
 | ARefUse      (* the reference held in the variable is passed on / returned (treated as a read) *)
 | AEscape      (* the address of the variable escapes (unclassifiable: must be allow-listed) *)
